@@ -1862,8 +1862,8 @@ class NoteRestToken(ComplexToken):
 
         # Deterministic order
         pitch_duration_tokens_sorted = sorted(
-            pitch_duration_tokens, key=lambda t: (t.category.value, t.encoding)
-        )
+            pitch_duration_tokens, key=lambda t: t.category.value
+        )  # stable: keeps the written order inside a category (duration number, dots, grace mark)
         decoration_tokens_sorted = sorted(
             decoration_tokens, key=lambda t: (t.category.value, t.encoding)
         )
